@@ -278,7 +278,9 @@ func jsonString(style, s string) string {
 }
 
 // encJSON writes one object; Kind "n" items are written as {"Name":{"Sub":"Value"}},
-// Kind "l" as {"Name":["Value"]}, Kind "r" as {"Name":Value} with Value a JSON literal.
+// Kind "l" as {"Name":["Value"]}, Kind "r" as {"Name":Value} with Value a JSON literal,
+// Kind "e" / "E" as {"Name":{}} / {"Name":[ ]} (nothing to read, and nothing of it may
+// stick to the members that follow).
 func encJSON(style string, items []Item) string {
 	var sb strings.Builder
 	if style == "toparr" {
@@ -299,6 +301,10 @@ func encJSON(style string, items []Item) string {
 			sb.WriteString("[" + jsonString(style, it.Value) + "]")
 		case "r":
 			sb.WriteString(it.Value) // a number / true / false literal
+		case "e":
+			sb.WriteString("{}") // a member without anything to flatten
+		case "E":
+			sb.WriteString("[ ]")
 		default:
 			sb.WriteString(jsonString(style, it.Value))
 		}
